@@ -6,7 +6,9 @@ from __future__ import annotations
 
 import ast
 
-from ..pyfacts import walk_no_nested_funcs
+import re
+
+from ..pyfacts import call_name, walk_no_nested_funcs
 from ..report import AnalysisError, RuleResult
 
 
@@ -155,3 +157,140 @@ def asserteffect(repo):
         raise AnalysisError(f"only {res.instances} assert statements found on the compile path")
     res.samples = [f"{res.instances} assert statements, none with a binding or a mutator call"]
     return res
+
+
+# --- R-TYPEANNOT -------------------------------------------------------------------------------------------------
+def typeannot(repo):
+    """R-TYPEANNOT (C13/C16): the checks of enclosing expressions read `<arg>.type.which_type` directly, so every
+    function of type_check.py that annotates its expression on some path must annotate it on every path that leaves
+    the function -- including the early `return` after reporting an error.  An annotation is a call of `_annotate_as_*`
+    / `_set_expression_type_*` with the expression, `builder(expression).type....CopyFrom(...)`, an assignment through
+    `builder(expression).type`, or a call of another function that annotates on every path (summaries to a fixed
+    point).  Paths are enumerated over if/else, loops (zero or more iterations), try and early exits; a path ending in
+    `assert False`/raise is not an exit."""
+    res = RuleResult("R-TYPEANNOT")
+    m = repo.mod("compiler/front_end/type_check.py")
+    funcs = {f.name: f for f in m.top_funcs()}
+
+    def first_param(f):
+        a = f.node.args.args
+        return a[0].arg if a else None
+
+    def direct_annotation(st, var, always):
+        """statement (or expression inside it) that unconditionally types `var`."""
+        for n in ast.walk(st):
+            if isinstance(n, ast.Call):
+                name = n.func.attr if isinstance(n.func, ast.Attribute) else n.func.id if isinstance(n.func, ast.Name) else ""
+                args = [a for a in n.args if isinstance(a, ast.Name)]
+                if args and n.args and args[0] is n.args[0] and args[0].id == var and (name.startswith("_annotate_as_") or name.startswith("_set_expression_type")
+                                                   or name in always):
+                    return True
+                # builder(expression).type.<x>.CopyFrom(...)
+                if name == "CopyFrom" and isinstance(n.func, ast.Attribute):
+                    chain = ast.unparse(n.func.value)
+                    if re.match(r"(ir_data_utils\.)?builder\(" + re.escape(var) + r"\)\.type\b", chain):
+                        return True
+            if isinstance(n, ast.Assign):
+                for t in n.targets:
+                    if re.match(r"(ir_data_utils\.)?builder\(" + re.escape(var) + r"\)\.type\b", ast.unparse(t)):
+                        return True
+        return False
+
+    def is_dead_end(st):
+        if isinstance(st, ast.Raise):
+            return True
+        if isinstance(st, ast.Assert) and isinstance(st.test, ast.Constant) and st.test.value is False:
+            return True
+        return False
+
+    def paths(stmts, states, var, always, exits):
+        """states: set of booleans (annotated so far) reaching the block; returns the set falling out of it."""
+        cur = set(states)
+        for st in stmts:
+            if not cur:
+                break
+            if is_dead_end(st):
+                return set()
+            if isinstance(st, ast.Return):
+                for s in cur:
+                    exits.append((s or (st.value is not None and direct_annotation(st, var, always)), st.lineno))
+                return set()
+            if isinstance(st, ast.If):
+                a = paths(st.body, cur, var, always, exits)
+                b = paths(st.orelse, cur, var, always, exits)
+                cur = a | b
+                continue
+            if isinstance(st, (ast.For, ast.While)):
+                body = paths(st.body, cur, var, always, exits)
+                cur = cur | body | paths(st.orelse, cur | body, var, always, exits)
+                continue
+            if isinstance(st, ast.Try):
+                body = paths(st.body, cur, var, always, exits)
+                hs = set()
+                for h in st.handlers:
+                    hs |= paths(h.body, cur | body, var, always, exits)
+                cur = paths(st.finalbody, body | hs, var, always, exits) if st.finalbody else body | hs
+                continue
+            if isinstance(st, ast.With):
+                cur = paths(st.body, cur, var, always, exits)
+                continue
+            if isinstance(st, (ast.FunctionDef, ast.ClassDef)):
+                continue
+            if direct_annotation(st, var, always):
+                cur = {True}
+        return cur
+
+    def analyse(f, always):
+        var = first_param(f)
+        exits = []
+        fall = paths(f.node.body, {False}, var, always, exits)
+        for s in fall:
+            exits.append((s, f.node.end_lineno))
+        return exits
+
+    candidates = {}
+    for name, f in funcs.items():
+        var = first_param(f)
+        if var != "expression":
+            continue
+        if direct_annotation(f.node, var, set()):
+            candidates[name] = f
+    # summaries: functions that annotate on every exit
+    always = set()
+    changed = True
+    while changed:
+        changed = False
+        for name, f in candidates.items():
+            if name in always:
+                continue
+            ex = analyse(f, always)
+            if ex and all(s for s, _ in ex):
+                always.add(name)
+                changed = True
+    for name, f in sorted(candidates.items()):
+        ex = analyse(f, always)
+        res.instances += len(ex)
+        bad = sorted({ln for s, ln in ex if not s})
+        if name == "_type_check_expression":
+            # the dispatcher: its `already checked` early return leaves an existing annotation in place
+            bad = [ln for ln in bad if not _already_typed_guard(f, ln)]
+        for ln in bad:
+            res.add(f"{m.rel}|{name}|untyped-exit", f"{name} can leave at line {ln} without having set the type of `expression` "
+                    "(other paths of the same function set it): the check of an enclosing operator then reads "
+                    "`.type.which_type` of an untyped expression -> AttributeError instead of the diagnostic",
+                    m.rel, ln, name)
+    res.samples = [f"annotating functions: {sorted(candidates)}", f"annotate on every exit: {sorted(always)}"]
+    if len(candidates) < 6:
+        raise AnalysisError(f"type_check.py: only {len(candidates)} annotating functions recognised")
+    res.analysed = [m.rel]
+    return res
+
+
+def _already_typed_guard(f, ln):
+    """the return at line ln sits under `if <expression>.type.which_type ...` / has_field("type")."""
+    for n in ast.walk(f.node):
+        if isinstance(n, ast.If) and any(isinstance(x, ast.Return) and x.lineno == ln for x in n.body):
+            t = ast.unparse(n.test)
+            if "type" in t:
+                return True
+    return False
